@@ -95,6 +95,8 @@ class Kernel:
         self.nrec = 0
         self.keep_log = keep_log
         self.log = []
+        self.baton_locks = 0        # SimLocks currently held by a baton thread (no pre-emption inside)
+        self.preemptions = 0
         self.blocked_tags = set()   # event tags deferred while e.g. the reactor is blocked
         self._deferred = []
         self.stop_flag = False
@@ -254,7 +256,14 @@ class FakeTime:
     def _tick(self):
         k = self.k
         if k.cur_thread is not None:
+            # a baton thread is running: reading the clock costs virtual CPU time, and it is a
+            # pre-emption point - every event that has become due runs before the thread goes on
+            # (otherwise a loop that is behind schedule and never sleeps would starve all other nodes)
             k.now += k.instr_cost
+            h = k._heap
+            if h and h[0][0] <= k.now and k.baton_locks == 0 and not k.aborting:
+                k.preemptions += 1
+                k.yield_point()
         return k.cur_node
 
     def time(self):
@@ -286,15 +295,24 @@ class SimLock:
 
     def __init__(self, kernel=None):
         self.held = False
+        self.k = kernel
+        self.by_baton = False
 
     def acquire(self, blocking=True, timeout=-1):
         if self.held:
             raise HarnessError("SimLock contended: a thread parked while holding the lock")
         self.held = True
+        k = self.k
+        if k is not None and k.cur_thread is not None:
+            self.by_baton = True
+            k.baton_locks += 1
         return True
 
     def release(self):
         self.held = False
+        if self.by_baton:
+            self.by_baton = False
+            self.k.baton_locks -= 1
 
     def __enter__(self):
         self.acquire()
